@@ -723,6 +723,11 @@ func main() {
 	if err != nil {
 		die("%v", err)
 	}
+	if *out != "" { // the working directory changes below: pin a relative -out first
+		if o, err := filepath.Abs(*out); err == nil {
+			*out = o
+		}
+	}
 	if err := os.Chdir(abs); err != nil { // go/build locates the module (and ./vendor) from the cwd
 		die("%v", err)
 	}
